@@ -436,6 +436,9 @@ _dispatch_transform_from_utf16(dispatch_data_t data, int32_t byteOrder)
 			skip = 0;
 		}
 
+		// number of code units that are entirely inside this region
+		const size_t full = max;
+
 		// If the buffer is an odd size, allow read ahead into the next region
 		if ((size % 2) != 0) {
 			max += 1;
@@ -473,8 +476,8 @@ _dispatch_transform_from_utf16(dispatch_data_t data, int32_t byteOrder)
 			if ((ch >= 0xd800) && (ch <= 0xdbff)) {
 				// Surrogate pair
 				wch = ((ch - 0xd800u) << 10);
-				if (++i >= max) {
-					// Surrogate byte isn't in this block
+				if (++i >= full) {
+					// Surrogate byte isn't (entirely) in this block
 					const void *p;
 					dispatch_data_t range = _dispatch_data_subrange_map(data,
 							&p, offset + (i * 2), 2);
@@ -484,7 +487,7 @@ _dispatch_transform_from_utf16(dispatch_data_t data, int32_t byteOrder)
 					ch = _dispatch_transform_swap_to_host(*(uint16_t *)p,
 							byteOrder);
 					dispatch_release(range);
-					skip += 2;
+					skip += (i < max) ? 1 : 2;
 				} else {
 					ch = _dispatch_transform_swap_to_host(src[i], byteOrder);
 				}
